@@ -10,6 +10,9 @@ ALL live arrays after every step, failing operations inside histories, minimised
 from dsim import core, refmodels
 from dsim.core import Result, Trace, canon, plain, InjectedFault
 from dsim.refmodels import BinsModel
+from dsim.seams import make_fault, FAULT_EXCEPTIONS
+
+_FAULTS = tuple(FAULT_EXCEPTIONS.values())
 
 ID = "C16"
 LEVEL = "exploration"
@@ -56,7 +59,7 @@ def gen_plan(seed, tier):
     cfg = TIERS[tier]
     r = core.rng(seed, "c16-swarm")
     manager = r.choice(["contents", "sums"])
-    vkind = r.choice(["names", "names", "identity_int", "identity_frac"])
+    vkind = r.choice(["names", "names", "identity_int", "identity_frac", "identity_large"])
     names = [f"x{j}" for j in range(r.randint(3, 12))]
     if vkind == "names":
         dy = r.random() < 0.25
@@ -65,6 +68,10 @@ def gen_plan(seed, tier):
     elif vkind == "identity_int":
         values = None
         pool_items = [r.randint(0, 50) for _ in names]
+    elif vkind == "identity_large":
+        # values that a float32 or int32 sums array cannot hold exactly (all sums stay far below 2^53)
+        values = None
+        pool_items = [r.choice([2 ** 24 + 1, 2 ** 31 + 7, 2 ** 40 + 3, 3 * 2 ** 33 + 1, 16777217, 123456789012]) + r.randint(0, 9) for _ in names]
     else:
         values = None
         pool_items = [r.randint(0, 64) / r.choice([1, 2, 4, 8]) for _ in names]
@@ -114,8 +121,11 @@ def gen_plan(seed, tier):
                 op["fault"] = "badindex"
             else:
                 op["idx"] = r.randint(-nb, nb - 1)
+                if r.random() < 0.25:
+                    op["idx_np"] = True          # the index is a numpy integer (what np.argmin / np.argmax hand to the algorithms)
                 if r.random() < p_valueof_fail:
                     op["fault"] = "valueof"
+                    op["exc"] = r.choices(["InjectedFault", "KeyError", "MemoryError", "KeyboardInterrupt"], weights=[45, 15, 10, 30])[0]
             ops.append(op)
         elif kind == "copy":
             a = r.choice(ids)
@@ -151,7 +161,9 @@ def gen_plan(seed, tier):
                     op["j"] = r.randrange(live[b])         # only the target index is bad
                 ops.append(op)
             else:
-                ops.append({"op": "combine", "a": a, "i": r.randrange(live[a]), "b": b, "j": r.randrange(live[b])})
+                # python / numpy indexing: negative indices are legal for the target bin and for the source bin
+                ops.append({"op": "combine", "a": a, "i": r.randint(-live[a], live[a] - 1) if r.random() < 0.3 else r.randrange(live[a]),
+                            "b": b, "j": r.randint(-live[b], live[b] - 1) if r.random() < 0.3 else r.randrange(live[b])})
         else:
             ops.append({"op": "read", "arr": r.choice(ids)})
     return {"prop": "C16", "manager": manager, "values": values, "ops": ops}
@@ -163,6 +175,7 @@ class _ValueOf:
     def __init__(self, values):
         self.values = values
         self.fail_next = False
+        self.exc = "InjectedFault"
         self.calls = 0
         self.fired = 0
 
@@ -171,8 +184,15 @@ class _ValueOf:
         if self.fail_next:
             self.fail_next = False
             self.fired += 1
-            raise InjectedFault("valueof failed")
+            raise make_fault(self.exc, "valueof failed")
         return item if self.values is None else self.values[item]
+
+
+def _idx(op):
+    if op.get("idx_np"):
+        import numpy as np
+        return np.int64(op["idx"])
+    return op["idx"]
 
 
 def _observe(manager, arr):
@@ -263,6 +283,19 @@ def execute(plan, seed=0):
             res.notes["invalid_plan"] = 1
             d = res.finish(tr)
             return _Invalid(res)
+        # a shrunk candidate may have turned a legal index into an out-of-range one or vice versa: not executable as labelled
+        if k == "add":
+            nb = len(model[op["arr"]].bins)
+            if (-nb <= op["idx"] < nb) == (op.get("fault") == "badindex"):
+                res.notes["invalid_plan"] = 1
+                res.finish(tr)
+                return _Invalid(res)
+        if k == "combine":
+            na, nb_ = len(model[op["a"]].bins), len(model[op["b"]].bins)
+            if ((-na <= op["i"] < na) and (-nb_ <= op["j"] < nb_)) == (op.get("fault") == "badindex"):
+                res.notes["invalid_plan"] = 1
+                res.finish(tr)
+                return _Invalid(res)
         res.evaluations += 1
         outcome = None
         try:
@@ -277,13 +310,18 @@ def execute(plan, seed=0):
                 a = op["arr"]
                 if op.get("fault") == "valueof":
                     vo.fail_next = True
+                    vo.exc = op.get("exc", "InjectedFault")
                 before = _observe(manager, real[a])
+                fired0 = vo.fired
                 try:
-                    ret = B.add_item_to_bin(real[a], op["item"], op["idx"])
-                except (InjectedFault, IndexError) as e:
+                    ret = B.add_item_to_bin(real[a], op["item"], _idx(op))
+                except _FAULTS + (IndexError,) as e:
+                    injected = vo.fired > fired0
                     vo.fail_next = False
                     outcome = "raised:" + type(e).__name__
-                    res.fault("valueof_raised" if isinstance(e, InjectedFault) else "bad_index_raised")
+                    if not injected and op.get("fault") != "badindex":
+                        res.violate("wrong-effect", step=step, op=op, why="a legal operation raised", exception=type(e).__name__, message=str(e)[:200])
+                    res.fault("valueof_raised_" + type(e).__name__ if injected else "bad_index_raised")
                     _after_failed_op(manager, res, step, op, a, real, model, val, before)
                 else:
                     if op.get("fault") == "badindex":
@@ -380,6 +418,8 @@ def execute(plan, seed=0):
                 except IndexError as e:
                     outcome = "raised:IndexError"
                     res.fault("bad_index_raised")
+                    if op.get("fault") != "badindex":
+                        res.violate("wrong-effect", step=step, op=op, why="a legal operation raised", exception="IndexError", message=str(e)[:200])
                     _after_failed_op(manager, res, step, op, a, real, model, val, before)
                 else:
                     if op.get("fault") == "badindex" and not (-len(model[a].bins) <= op["i"] < len(model[a].bins) and -len(model[b].bins) <= op["j"] < len(model[b].bins)):
@@ -417,7 +457,7 @@ def execute(plan, seed=0):
                 outcome = "ok"
             else:
                 raise ValueError("unknown op " + k)
-        except (InjectedFault,) as e:
+        except (InjectedFault, KeyboardInterrupt, MemoryError) as e:
             outcome = "raised:" + type(e).__name__
             res.violate("wrong-effect", step=step, op=op, why="injected valueof fault surfaced from an operation that was not given one")
         except Exception as e:
